@@ -58,6 +58,7 @@ pub struct ADict {
     pub user: Option<Vec<AWord>>,
     pub unk: Vec<AUnk>, // file order
     pub conn: AConn,
+    pub iso: bool, // generator's claim: the precondition of C12 holds (informational)
 }
 
 pub fn cps_to_string(s: &[u32]) -> String {
@@ -231,6 +232,7 @@ impl ADict {
         d["names"] = json!(self.cats.iter().map(|c| c.name.clone()).collect::<Vec<_>>());
         d["dpos"] = json!(self.default_line_pos);
         d["has_user"] = json!(self.user.is_some());
+        d["iso"] = json!(self.iso);
         if let AConn::Bigram { dual, .. } = &self.conn {
             d["dual"] = json!(dual);
         }
@@ -288,7 +290,7 @@ impl ADict {
                 mat: v["mat"].as_array().map(|a| a.iter().map(|c| i(c) as i32).collect()).unwrap_or_default(),
             }
         };
-        ADict { cats, default_line_pos: u(&v["dpos"]) as usize, ranges, lex, user: if has_user { Some(uw) } else { None }, unk, conn }
+        ADict { cats, default_line_pos: u(&v["dpos"]) as usize, ranges, lex, user: if has_user { Some(uw) } else { None }, unk, conn, iso: v["iso"].as_bool().unwrap_or(false) }
     }
 }
 
